@@ -255,15 +255,15 @@ func (w *World) forkAtWait(c *ContactState, rec *SessionRec, live flows.Session,
 			nodes, _ := def["nodes"].([]any)
 			var keep []any
 			for _, n := range nodes {
-				if n.(gen.J)["uuid"] != nodeUUID {
+				if asJ(n)["uuid"] != nodeUUID {
 					keep = append(keep, n)
 				}
 			}
 			for _, n := range keep {
-				exits, _ := n.(gen.J)["exits"].([]any)
+				exits, _ := asJ(n)["exits"].([]any)
 				for _, ex := range exits {
-					if ex.(gen.J)["destination_uuid"] == nodeUUID {
-						delete(ex.(gen.J), "destination_uuid")
+					if asJ(ex)["destination_uuid"] == nodeUUID {
+						delete(asJ(ex), "destination_uuid")
 					}
 				}
 			}
@@ -275,8 +275,8 @@ func (w *World) forkAtWait(c *ContactState, rec *SessionRec, live flows.Session,
 		{name: "wait_removed_from_node", impossible: true, mutate: editFlow(wf, func(def gen.J) {
 			nodes, _ := def["nodes"].([]any)
 			for _, n := range nodes {
-				if n.(gen.J)["uuid"] == nodeUUID {
-					if r, _ := n.(gen.J)["router"].(gen.J); r != nil {
+				if asJ(n)["uuid"] == nodeUUID {
+					if r, _ := asJ(n)["router"].(gen.J); r != nil {
 						delete(r, "wait")
 					}
 				}
@@ -285,10 +285,10 @@ func (w *World) forkAtWait(c *ContactState, rec *SessionRec, live flows.Session,
 		{name: "router_removed_from_node", impossible: true, mutate: editFlow(wf, func(def gen.J) {
 			nodes, _ := def["nodes"].([]any)
 			for _, n := range nodes {
-				if n.(gen.J)["uuid"] == nodeUUID {
-					delete(n.(gen.J), "router")
-					if exits, _ := n.(gen.J)["exits"].([]any); len(exits) > 1 {
-						n.(gen.J)["exits"] = exits[:1]
+				if asJ(n)["uuid"] == nodeUUID {
+					delete(asJ(n), "router")
+					if exits, _ := asJ(n)["exits"].([]any); len(exits) > 1 {
+						asJ(n)["exits"] = exits[:1]
 					}
 				}
 			}
@@ -341,15 +341,15 @@ func (w *World) forkAtWait(c *ContactState, rec *SessionRec, live flows.Session,
 			nodes, _ := def["nodes"].([]any)
 			var keep []any
 			for _, n := range nodes {
-				if n.(gen.J)["uuid"] != parentNode {
+				if asJ(n)["uuid"] != parentNode {
 					keep = append(keep, n)
 				}
 			}
 			for _, n := range keep {
-				exits, _ := n.(gen.J)["exits"].([]any)
+				exits, _ := asJ(n)["exits"].([]any)
 				for _, ex := range exits {
-					if ex.(gen.J)["destination_uuid"] == parentNode {
-						delete(ex.(gen.J), "destination_uuid")
+					if asJ(ex)["destination_uuid"] == parentNode {
+						delete(asJ(ex), "destination_uuid")
 					}
 				}
 			}
